@@ -156,6 +156,16 @@ def include_ring(k, pre=False):
     return units
 
 
+def source_include_ring(k):
+    """source files (indexed on their own) that INCLUDE the next one outside any scope; k = 1 includes itself"""
+    units = []
+    for i in range(k):
+        j = (i + 1) % k
+        units.append((f"srcinc{i}", ".f90", f"integer :: sv{i}\ninclude 'srcinc{j}.f90'\n" + (f"include 'srcinc{j}.f90'\n" if i == 0 else "")))
+    units.append(("srcincuser", ".f90", "program srcincuser\n  implicit none\n  include 'srcinc0.f90'\n  sv0 = 1\nend program srcincuser\n"))
+    return units
+
+
 def self_include(k):
     return [("selfinc", ".f90", "module selfinc\n  integer :: si\n" + "  include 'selfinc.f90'\n" * k + "end module selfinc\n"),
             ("selfpp", ".F90", "#include \"selfpp.F90\"\n" * k + "subroutine spp()\n  integer :: sj\n  sj = 1\nend subroutine spp\n")]
@@ -254,6 +264,7 @@ CATALOGUE = [
     ("include-ring", lambda k: include_ring(k)),
     ("pp-include-ring", lambda k: include_ring(k, pre=True)),
     ("self-include", self_include),
+    ("source-include-ring-toplevel", source_include_ring),
     ("self-typed-components", self_typed),
     ("parameter-self-reference", param_self),
     ("generic-interface-self", generic_self),
@@ -291,7 +302,7 @@ def build(entry, k, placement, rng=None):
         # include files must stay separate; program units are joined into one file per extension
         buf = {}
         for un, ext, text in units:
-            if ext in (".inc", ".h") or name == "self-include":
+            if ext in (".inc", ".h") or name in ("self-include", "source-include-ring-toplevel"):
                 files[un + ext] = text
             else:
                 buf.setdefault(ext, []).append(text)
